@@ -18,8 +18,14 @@ func main() {
 		explain = flag.String("explain", "", "re-evaluate the obligation recorded in a violation file")
 		evdir   = flag.String("evidence", "/verif/evidence", "evidence directory")
 		kf      = flag.String("known", "/verif/known_findings.json", "known findings file")
+		ov      = flag.String("overlay", "", "audit only: comma-separated orig=replacement source overlays")
 	)
 	flag.Parse()
+	for _, kv := range strings.Split(*ov, ",") {
+		if i := strings.Index(kv, "="); i > 0 {
+			overlays[kv[:i]] = kv[i+1:]
+		}
+	}
 	if *tier == "" {
 		*tier = os.Getenv("VERIF_TIER")
 	}
